@@ -3,5 +3,12 @@ EXTENDS PyIndex, Json, IOUtils, SequencesExt, TLC
 
 Point(m, e) == [n |-> m, ex |-> e, res |-> Eval(e, m)]
 AllPoints == UNION { { Point(m, e) : e \in Exprs(m) } : m \in 1..MaxLen }
+\* strides against group boundaries: a longer axis, steps +-2 .. +-7 from several starts / stops (the backend serves a strided slice group
+\* by group of records_per_chunk lines: the phase of the stride changes from group to group)
+StrideN == 13
+StridePoints == { Point(StrideN, [kind |-> "slice", a |-> a, b |-> b, s |-> <<st>>]) :
+                    a \in Opt({0, 1, 2, 5, -1, -4}), b \in Opt({13, 11, 7, -2, 0}), st \in {2, 3, 4, 5, 7, -2, -3, -4, -5, -7} }
+ASSUME \A pt \in StridePoints : pt.res.err = "" /\ \A k \in 1..Len(pt.res.rows) : pt.res.rows[k] \in 0..StrideN-1
+ASSUME "STRIDES_FILE" \in DOMAIN IOEnv => JsonSerialize(IOEnv.STRIDES_FILE, SetToSeq(StridePoints))
 ASSUME "POINTS_FILE" \in DOMAIN IOEnv => JsonSerialize(IOEnv.POINTS_FILE, SetToSeq(AllPoints))
 =============================================================================
